@@ -333,11 +333,20 @@ def main():
                     kh = match_known(known, c, i)
                     judge = getattr(mod, "judge", None)
                     verdict = judge(c, i, m) if judge else None
+                    vcase = c
+                    if not verdict and st.get("oracle_prefix"):
+                        # search: hand the disagreeing cases to the implementation-only property oracle
+                        ocs = [st["oracle_prefix"] + x[0][x[0].index(" "):] for x in bad[:200]]
+                        oouts = run_cases(harness_bin(prof), ocs, st["name"] + ".search")
+                        for oc, oo in zip(ocs, oouts):
+                            if not oo.startswith("PASS") and not match_known(known, oc, oo):
+                                verdict, vcase = "oracle on disagreeing case: " + oo, oc
+                                break
                     if kh and all(match_known(known, c2, i2) for c2, i2, _ in bad):
                         known_hits.append(kh)
                         broken.pop()
                     elif verdict:  # the implementation's trace itself violates the property
-                        violations.append((verdict, write_replay(prop, "input", verdict, [c], {"impl": i, "model": m}), True))
+                        violations.append((verdict, write_replay(prop, "input", verdict, [vcase], {"impl": i, "model": m}), True))
                     else:
                         violations.append((name, write_replay(prop, "corr", name + " no longer checks", [x[0] for x in bad[:5]],
                                                                {"impl": i, "model": m}), False))
